@@ -557,6 +557,34 @@ impl World {
         false
     }
 
+    /// At a driver-level operation boundary: a device that only acts on notifications must have
+    /// been told about everything that is available (the driver APIs notify by themselves).
+    pub fn check_no_lost_wakeup(&mut self, site: &str) {
+        if self.cfg.serve != ServePolicy::NotifyOnly || !self.cfg.validate {
+            return;
+        }
+        for q in 0..self.dq.len() as u16 {
+            if self.qreg(q).is_none() || !self.tr.live(q) {
+                continue;
+            }
+            let dq = &self.dq[q as usize];
+            let waiting_for_kick = match self.cfg.suppress {
+                Suppress::Never => true,
+                Suppress::WhileBusy => dq.armed && !dq.recheck,
+            };
+            if waiting_for_kick && !dq.notified && self.unfetched(q) {
+                let (la, idx) = (dq.last_avail, self.avail_idx_mem(q).unwrap_or(0));
+                self.violation(
+                    "lost-notification",
+                    &format!("{site}/q{q}"),
+                    format!(
+                        "driver call returned with available entries {la}..{idx} on queue {q} that the device has not been notified about, although the device did not suppress notifications"
+                    ),
+                );
+            }
+        }
+    }
+
     /// One atomic device action, chosen by the tape among everything currently enabled.
     /// Returns false if nothing was enabled.
     pub fn device_step(&mut self) -> bool {
